@@ -326,3 +326,90 @@ Proof.
          | match ?x with _ => _ end = _ => destruct x
          end; try discriminate; inversion L; reflexivity.
 Qed.
+
+(* ------------------------------------------------------------------ without the no-reuse hypothesis *)
+(* the same side conditions minus [no_reuse]: small host inode numbers, handle kind of the mode *)
+Definition t_host0 (c : cfg) (t : target) : Prop := small_t t /\ wf_t c t.
+Fixpoint ents_host0 (c : cfg) (ents : list (target * bool)) : Prop :=
+  match ents with [] => True | e :: r => t_host0 c (fst e) /\ ents_host0 c r end.
+Definition op_host0 (c : cfg) (o : op) : Prop :=
+  match o with
+  | OLookup _ (Some t) | OEntry _ (Some t) | OLink _ _ (Some t) | OCreate _ (Some t) _ _ => t_host0 c t
+  | OReaddir _ ents => ents_host0 c ents
+  | ODestroy root => small_t root /\ wf_t c root
+  | _ => True
+  end.
+Definition hist_host0 (c : cfg) (h : list op) : Prop := Forall (op_host0 c) h.
+
+(* without file handles the host identity is (ino, dev, mnt) and the O_PATH descriptor pins the inode:
+   [no_reuse] is not a hypothesis but a consequence *)
+Lemma ents_host_of_0 c plus : ifh c = false -> uhi c = true -> forall ents s,
+  HInvs c s -> ents_host0 c ents -> ents_host c plus s ents.
+Proof.
+  intros NI U. induction ents as [|e r IH]; cbn [ents_host0 ents_host]; intros s HK E0; [exact I|].
+  destruct E0 as [[SM W] E0]. pose proof HK as [H [A F]].
+  assert (TH : t_host c s (fst e)) by (split; [exact SM|split; [exact W|apply no_reuse_nohandle; assumption]]).
+  split; [exact TH|]. apply IH; [|exact E0].
+  unfold readdir_entry. destruct (do_lookup c s (fst e)) as [lr s1] eqn:DL.
+  destruct (lookup_host _ _ _ _ _ U HK TH DL) as [_ HK1].
+  destruct lr; cbn [snd]; try exact HK1. destruct (plus && snd e); [exact HK1|apply forget_host; exact HK1].
+Qed.
+
+Lemma hist_host_of_0 c : ifh c = false -> uhi c = true -> forall h s,
+  HInvs c s -> hist_host0 c h -> hist_host c s h.
+Proof.
+  intros NI U. induction h as [|o h IH]; intros s HK H0; cbn [hist_host]; [exact I|].
+  inversion H0 as [|? ? O0 H1]; subst. pose proof HK as [H [A F]].
+  assert (OH : op_host c s o).
+  { destruct o as [p t|p t|i p t|p t ex ok|i n|l|plus ents| |root]; cbn [op_host op_host0] in *; auto;
+      try (destruct t as [t|]; [|exact I]; destruct O0 as [SM W]; split; [exact SM|split; [exact W|apply no_reuse_nohandle; assumption]]).
+    apply ents_host_of_0; assumption. }
+  split; [exact OH|]. apply IH; [|exact H1]. apply (step_host c s o U HK OH).
+Qed.
+
+Theorem run_refines_hostino_nohandle c root h :
+  uhi c = true -> ifh c = false -> small_t root -> hist_host0 c h -> 2 + total_allocs h < U64MAX ->
+  let r := run c (fresh c root) h in
+  I1 (snd r) /\ IRoot (snd r) /\ ~ In RSpin (fst r) /\
+  forall j, j <> ROOT_ID -> refs_of (snd r) j = spec_run (refs_of (fresh c root)) h (fst r) j.
+Proof.
+  intros U NI SM H0 NW.
+  assert (W : wf_t c root) by (unfold wf_t, okfh, eff_fh; rewrite NI; reflexivity).
+  apply run_refines_hostino; auto.
+  apply hist_host_of_0; auto. split; [apply fresh_HI|apply fresh_KInv; exact W].
+Qed.
+
+(* with file handles AND use_host_ino the statement without [no_reuse] is false: the number is a function of the
+   host inode number, so a new file that got the recycled inode number of an unlinked, still referenced file gets
+   the SAME number; do_lookup inserts over the live entry and the old file's references are lost *)
+Definition hostino_handles_full : Prop := forall root h,
+  let c := mkCfg true true in
+  small_t root -> wf_t c root -> hist_host0 c h -> 2 + total_allocs h < U64MAX ->
+  forall j, j <> ROOT_ID ->
+    refs_of (snd (run c (fresh c root) h)) j = spec_run (refs_of (fresh c root)) h (fst (run c (fresh c root) h)) j.
+
+Definition ru_root : target := mkT (100, 1, 1) (Some 1) true.
+Definition ru_old : target := mkT (102, 1, 1) (Some 2) true.     (* the file the client still references *)
+Definition ru_new : target := mkT (102, 1, 1) (Some 3) true.     (* same (ino, dev, mnt), another generation *)
+Definition ru_hist : list op := [OLookup 1 (Some ru_old); OLookup 1 (Some ru_new)].
+
+Lemma hostino_handles_refuted : ~ hostino_handles_full.
+Proof.
+  intros H. specialize (H ru_root ru_hist).
+  assert (A1 : small_t ru_root) by (vm_compute; discriminate).
+  assert (A2 : wf_t (mkCfg true true) ru_root) by reflexivity.
+  assert (A3 : hist_host0 (mkCfg true true) ru_hist).
+  { repeat constructor; vm_compute; discriminate. }
+  assert (A4 : 2 + total_allocs ru_hist < U64MAX) by reflexivity.
+  specialize (H A1 A2 A3 A4 140737488355430). vm_compute in H.
+  assert (NR : 140737488355430 <> 1) by discriminate. specialize (H NR). discriminate.
+Qed.
+
+Lemma ru_witness_shape :
+  fst (run (mkCfg true true) (fresh (mkCfg true true) ru_root) ru_hist) = [RIno 140737488355430; RIno 140737488355430] /\
+  refs_of (snd (run (mkCfg true true) (fresh (mkCfg true true) ru_root) ru_hist)) 140737488355430 = 1 /\
+  (* the same history with the counter numbering: two numbers, one reference each *)
+  fst (run (mkCfg true false) (fresh (mkCfg true false) ru_root) ru_hist) = [RIno 2; RIno 3] /\
+  refs_of (snd (run (mkCfg true false) (fresh (mkCfg true false) ru_root) ru_hist)) 2 = 1 /\
+  refs_of (snd (run (mkCfg true false) (fresh (mkCfg true false) ru_root) ru_hist)) 3 = 1.
+Proof. vm_compute. auto. Qed.
